@@ -119,6 +119,7 @@ type c04Rec struct {
 	calls   [][]byte
 	stream  []byte
 	syncs   int
+	atSync  int
 	n       int
 	gosched int
 	safe    *sync.Mutex // non-nil: the recorder serialises its own field accesses (not the Write as a whole), so that
@@ -159,6 +160,7 @@ func (r *c04Rec) Sync() error {
 		defer r.safe.Unlock()
 	}
 	r.syncs++
+	r.atSync = r.n // an unserialised Sync next to a Write is a race on n
 	return nil
 }
 
